@@ -3,6 +3,12 @@
 import json, sys
 
 CHECKS = {
+ "C01": dict(cat="exploration", tech="model-based testing of operation histories: bounded-exhaustive enumeration (length <= 3 over a reduced alphabet, plus all request/write/restore/request patterns) and proptest-generated longer histories, interpreted against a real BuildContext and a reference layer model compared after every step (files bytewise, TOML via Python tomllib, callback invocation log)",
+   text="Sequences of cached/uncached layer requests (all IntoAction shapes, three metadata types, every callback decision incl. errors), writes through LayerRef and simulated lifecycle restores are executed on a real layers directory; after every step the reported state, the callback log, this layer's directory/TOML/SBOMs and the byte-identity of all other layers are compared with a reference model.",
+   note="The lifecycle restore is the abstraction given in the property's quantifier, applied by the harness; malformed TOML / hand-edited env directories are not generated; trusted: reference model (layermodel.rs), Python tomllib."),
+ "C02": dict(cat="exploration", tech="model-based testing of operation histories: proptest-generated sequences of handle_layer calls with fully scripted Layer implementations interleaved with simulated restores, compared after every call with a reference model (callback log, disk state, returned LayerData incl. env application)",
+   text="The scripted Layer implementation chooses types, strategy, migration and create/update results (metadata, env for all four scopes, exec.d, SBOMs, files) or errors per call; after every call the set and order of callbacks with their arguments, the on-disk layer and the returned LayerData (applied for every scope) must equal the model; other layers must stay byte-identical.",
+   note="Callbacks obey the trait's documented contract; same lifecycle abstraction and trusted base as C01."),
  "C03": dict(cat="exploration", tech="proptest-generated (old env, new env) pairs written through libcnb into a directory with canary content, file set compared with an independent renderer of the spec layout; harness-built spec-shaped directories read through libcnb and compared with a reference reader + reference apply",
    text="Write side: after writing `new` over `old`, the regular files under env/, env.build/, env.launch/ (and per-process sub-directories) must be exactly the spec rendering of `new` with raw bytes, nothing of `old` may survive and canary content must be untouched; the value must read back equal. Read side: directories laid out by the harness (suffix-less, known, unknown and non-UTF-8 suffixes, nested directories, per-process directories) must apply exactly like the reference reader says for every scope and several starting environments.",
    note="Process names exclude '.'/'..' and names ending in a behaviour suffix; NAME and NAME.override never coexist (spec-level ambiguities); file-name splitting follows libcnb's documented last-dot rule; unix only."),
